@@ -900,8 +900,12 @@ mod proofs {
             i += 1;
         }
         kani::assume(!same);
-        rabuf::set_next_image(img.to_vec(), 200);
+        // any non-empty file that holds the 16 signature bytes, also one shorter than a header
+        let flen: u64 = kani::any();
+        kani::assume(flen >= 16 && flen <= 256);
+        rabuf::set_next_image(img.to_vec(), flen);
         rabuf::set_next_bulk(true);
+        rabuf::set_next_ro(true);
         let params = FileDbParams::default();
         match which {
             0 => {
@@ -936,4 +940,75 @@ mod proofs {
     open_rej_proof!(b_open_reject_htx, 0);
     open_rej_proof!(b_open_reject_key, 1);
     open_rej_proof!(b_open_reject_val, 2);
+
+    // ------------------------------------------------------------------ per-file flush / sync wrappers
+    /// HtxFile / KeyFile / ValueFile ::flush, sync_all, sync_data write back whatever is pending,
+    /// whatever the file holds (also an empty table), and reach the matching OS sync
+    fn wrapper_sync(which: u8) {
+        let kind: u8 = kani::any();
+        kani::assume(kind < 3);
+        let check = |f: &mut VarFile| {
+            let b = f.verif_buf();
+            assert!(!b.dirty && b.n_flush == 1, "per-file flush / sync wrapper did not write back the buffer");
+            assert!(b.n_sync_all == if kind == 1 { 1 } else { 0 }, "sync_all wrapper does not reach the file's sync_all");
+            assert!(b.n_sync_data == if kind == 2 { 1 } else { 0 }, "sync_data wrapper does not reach the file's sync_data");
+        };
+        if which == 0 {
+            let (img, end) = table::<8, { tsize!(8) }>();
+            let mut f = verif::htx::var_file(BufFile::from_image(img.to_vec(), end));
+            // something is pending: e.g. the count was just written (any value, also 0)
+            ok(verif::htx::write_item_count(&mut f, kani::any()));
+            let h = verif::htx::htx_file(f, 8);
+            match kind {
+                0 => ok(h.flush()),
+                1 => ok(h.sync_all()),
+                _ => ok(h.sync_data()),
+            }
+            verif::htx::with_var_file(&h, check);
+            core::mem::forget(h);
+        } else {
+            let img: [u8; 256] = kani::any();
+            let buf = BufFile::from_image(img.to_vec(), 200);
+            if which == 1 {
+                let mut f = verif::key::var_file(buf);
+                ok(f.seek_from_start(KeyPieceOffset::new(48)));
+                ok(f.write_u64_le(kani::any()));
+                let k: KeyFile<DbBytes> = verif::key::key_file(f);
+                match kind {
+                    0 => ok(k.flush()),
+                    1 => ok(k.sync_all()),
+                    _ => ok(k.sync_data()),
+                }
+                verif::key::with_var_file(&k, check);
+                core::mem::forget(k);
+            } else {
+                let mut f = verif::val::var_file(buf);
+                ok(f.seek_from_start(ValuePieceOffset::new(32)));
+                ok(f.write_u64_le(kani::any()));
+                let v = verif::val::val_file(f);
+                match kind {
+                    0 => ok(v.flush()),
+                    1 => ok(v.sync_all()),
+                    _ => ok(v.sync_data()),
+                }
+                verif::val::with_var_file(&v, check);
+                core::mem::forget(v);
+            }
+        }
+    }
+    #[kani::proof]
+    #[kani::unwind(11)]
+    fn b_wrap_sync_htx() {
+        wrapper_sync(0);
+    }
+    #[kani::proof]
+    #[kani::unwind(11)]
+    fn b_wrap_sync_key() {
+        wrapper_sync(1);
+    }
+    #[kani::proof]
+    #[kani::unwind(11)]
+    fn b_wrap_sync_val() {
+        wrapper_sync(2);
+    }
 }
